@@ -1,5 +1,5 @@
 From Coq Require Import ExtrOcamlBasic NArith List.
 From LV Require Import lib.Conv model.VecIndex spec.FcSpec model.Abft model.AbftRun spec.AbftSpec model.AbftStore.
-Extraction "model.ml" conv_roots mk_id mk_vals sample sample_old run start
+Extraction "model.ml" conv_roots mk_id mk_vals sample sample_old run run_inst start
   chk_start c02_trace c03_trace c04_trace fc_graph g_add fc_spec vev v_quorum
   srun store_start store_trace astore_start.
